@@ -553,9 +553,9 @@ func (e *vC09Env) runSeq(proto ProtocolType, entry string, seq []vC09Letter) (op
 		if (!proceed && entry != "cmdi") || t.closed {
 			stopped = true
 			open = false
-			if i != len(seq)-1 {
-				panic("verif: sequence extended after stop")
-			}
+			// (with the wait letter the instant of the first server ping - jittered by the node's
+			// random source, which advances from run to run - decides whether an extension of an open
+			// prefix is still open when it is re-run: an early stop is an ordinary end of the sequence)
 			break
 		}
 	}
